@@ -23,7 +23,7 @@ import SkNet.Lemmas.BreakAcyclic
 import SkNet.Lemmas.BreakDirGlobal
 import SkNet.Lemmas.BreakFuel
 import SkNet.Lemmas.BreakDist
-import SkNet.Lemmas.Forest
+import SkNet.Lemmas.UndirectedForest
 import SkNet.Lemmas.CompleteUnd
 
 namespace SkNet.C12
@@ -414,7 +414,7 @@ def IsWeakCount (n : Nat) (adj : Nat → List Nat) (k : Nat) : Prop :=
 /-- the rows of an undirected input: symmetric pattern, no duplicate entry -/
 theorem uok_of_canon {m : Mat} (hc : m.Canon) (hsq : m.nRow = m.nCol) (hs : m.isSymmetric = .ok true)
     (hrows : ∀ i, i < m.nRow → (m.adj i).Nodup) (hnl : ∀ u, u < m.nRow → u ∉ m.adj u) :
-    SkNet.Forest.UOK m.nRow m.adj :=
+    SkNet.UForest.UOK m.nRow m.adj :=
   ⟨Canon.wf hc hsq, Canon.sym hc hs, hnl, hrows⟩
 
 /-- ★ `isAcyclic_undirected_iff`: for a graph taken as undirected (flag `False`, or inferred from a symmetric matrix,
@@ -447,7 +447,7 @@ theorem isAcyclic_undirected_iff (nCC : Bool → Nat) (m : Mat) (directed : Opti
       simp only [selfLoops, List.mem_filter, List.mem_range, decide_eq_true_eq]
       exact ⟨hu, Rat.lt_of_le_of_ne (hnn u u) (Ne.symm ((hc u u hu).mp hmem).2)⟩
     have huok := uok_of_canon hc hsq hs hrows hnoloop
-    have hforest := SkNet.Forest.components_eq_iff_forest huok hlab
+    have hforest := SkNet.UForest.components_eq_iff_forest huok hlab
     rw [beq_iff_eq, hk]
     have hnnz : m.nnz = ((List.range m.nRow).map fun i => (m.adj i).length).sum := rfl
     rw [hnnz, hforest]
@@ -785,7 +785,7 @@ theorem getCycles_empty_iff_acyclic_undirected (fuel : Nat) (nCC : Bool → Nat)
       have : ((nCC false : Int) == (m.nRow : Int) - ((m.nnz / 2 : Nat) : Int)) = true := hcrit
       rw [beq_iff_eq, hn] at this
       exact this
-    have hno3 := SkNet.Forest.no_cycle_of_criterion hwf hsym hrows hlab hcrit'
+    have hno3 := SkNet.UForest.no_cycle_of_criterion hwf hsym hrows hlab hcrit'
     constructor
     · intro he
       refine ⟨?_, hno3⟩
@@ -837,7 +837,7 @@ theorem getCycles_empty_iff_acyclic_undirected (fuel : Nat) (nCC : Bool → Nat)
           have hweak := (hsame _ c hsn hcn).mp hslab
           simp only [SameComp, Bool.false_eq_true, ↓reduceIte] at hweak
           have hreach : Reach m.adj (firstOfLabel (labels false) ((labels false).getD c 0)) c := by
-            refine SkNet.Forest.reach_congr (weakAdj_wf hwf) ?_ hsn hweak
+            refine SkNet.UForest.reach_congr (weakAdj_wf hwf) ?_ hsn hweak
             intro x hx y hy
             rcases List.mem_append.mp hy with h' | h'
             · exact h'
